@@ -712,6 +712,10 @@ class _MutableSetMixin:
         if it is self:
             self.clear()
         else:
+            if not isinstance(it, _Base):
+                # As for set.symmetric_difference_update: an element that
+                # occurs twice in a plain iterable is toggled once.
+                it = self._set_type(it)
             for value in it:
                 if value in self:
                     self.discard(value)
